@@ -1355,7 +1355,7 @@ def check_ranges(ctx, exe, d, n_strings, n_big):
     per = 40
     groups = [cases[i:i + per] for i in range(0, len(cases), per)]
     exprs = ["(c12-range-run \"%s\" '(%s))" % (path, " ".join(c[1] for c in g)) for g in groups]
-    res = scm.run_cases(d, exprs, prelude_extra=prelude, imports=IMPORTS, chunk=25, timeout=120)
+    res = scm.run_cases(d, exprs, prelude_extra=prelude, imports=IMPORTS, chunk=25, timeout=(40 if not ctx.thorough else 120))
     with_model = [c for c in cases if c[5] is not None and RANGE_MODEL]
     mo = ctx.run_model(exe, [c[5] for c in with_model]) if with_model else []
     mo = dict(zip([id(c) for c in with_model], mo))
